@@ -91,6 +91,7 @@ func (fr *frame) callFunction(v ssa.Value, callee *ssa.Function, args, binds []V
 		fr.resLog = map[string][]Val{}
 	}
 	fr.resLog[nm] = append(fr.resLog[nm], res)
+	fr.afterCall(nm, args, res, callee.Signature)
 	return res
 }
 
@@ -118,6 +119,7 @@ func (fr *frame) trackedCall(v ssa.Value, callee *ssa.Function, args, binds []Va
 			u.argKeyType[k] = a.typ
 			fr.st.set(k, t)
 			fr.snapshotBytes(name, i, a, t)
+			fr.noteArgSet(name, i, a, t)
 		}()
 	}
 	res := fr.callFunction2(v, callee, args, binds, pos)
@@ -704,6 +706,7 @@ func (fr *frame) invokeCallVals(v ssa.Value, c *ssa.CallCommon, recv Val, rest [
 	if !u.trackCalls[name] {
 		r := fr.invokeCallVals2(v, c, recv, rest)
 		fr.resLog[name] = append(fr.resLog[name], r)
+		fr.afterCall(name, append([]Val{recv}, rest...), r, c.Method.Type().(*types.Signature))
 		return r
 	}
 	defer func() {
@@ -729,6 +732,7 @@ func (fr *frame) invokeCallVals(v ssa.Value, c *ssa.CallCommon, recv Val, rest [
 			u.argKeyType[k] = a.typ
 			fr.st.set(k, t)
 			fr.snapshotBytes(name, i+1, a, t)
+			fr.noteArgSet(name, i+1, a, t)
 		}()
 	}
 	res := fr.invokeCallVals2(v, c, recv, rest)
@@ -743,6 +747,7 @@ func (fr *frame) invokeCallVals(v ssa.Value, c *ssa.CallCommon, recv Val, rest [
 		}
 	}
 	fr.resLog[name] = append(fr.resLog[name], res)
+	fr.afterCall(name, append([]Val{recv}, rest...), res, c.Method.Type().(*types.Signature))
 	return res
 }
 
@@ -1264,4 +1269,43 @@ func (fr *frame) callOrder(name string, n int) []int {
 	}
 	sort.SliceStable(idx, func(a, b int) bool { return ps[idx[a]] < ps[idx[b]] })
 	return idx
+}
+
+// afterCall: assumptions declared with `after CALLEE assume E` about what a callee returned
+// (result / result0.. name the results, arg0.. the arguments); they are listed as unchecked.
+func (fr *frame) afterCall(name string, args []Val, res Val, sig *types.Signature) {
+	if fr.contract == nil || !fr.top || len(fr.contract.After[name]) == 0 {
+		return
+	}
+	env := fr.specEnvAt(fr.blk, fr.st, nil)
+	env.inclusive = true
+	for i, a := range args {
+		env.vars[fmt.Sprintf("arg%d", i)] = a
+	}
+	if res.tup != nil {
+		env.results = res.tup
+	} else {
+		env.results = []Val{res}
+	}
+	env.resultSig = sig
+	for _, cl := range fr.contract.After[name] {
+		t, err := env.boolExpr(cl.E)
+		if err != nil {
+			fr.u.bindingError(fmt.Sprintf("after %s assume: %v", name, err))
+			continue
+		}
+		fr.assume(t)
+		fr.u.note("%s: assumed about the result of %s: %s", fr.fn.Name(), name, cl.Src)
+	}
+}
+
+// noteArgSet: ghost set of the values argument i of the calls to name has taken (calledwitharg)
+func (fr *frame) noteArgSet(name string, i int, a Val, t string) {
+	u := fr.u
+	if !u.trackArgSets[fmt.Sprintf("%s.%d", name, i)] {
+		return
+	}
+	k := u.regKey(fmt.Sprintf("CalledWith.%s.%d", name, i), "(Array "+u.sortOf(a.typ)+" Bool)")
+	u.argKeyType[k] = a.typ
+	fr.st.set(k, "(store "+fr.st.get(u, k)+" "+t+" true)")
 }
